@@ -37,7 +37,7 @@ ASSUMPTIONS = [
 ]
 FLOORS = {
     "quick": {"db_writes_checked": 9000, "historical_reads": 150000, "fault_points": 2000,
-              "interleaved_spans": 500, "snapshot_writes": 300, "batch_steps": 1000, "nested_batch_refused": 100,
+              "interleaved_spans": 500, "snapshot_writes": 300, "batch_steps": 1000, "nested_batch_refused": 100, "live_writes_under_open_snapshot": 300,
               "nested_batch_committed": 50},
     "thorough": {"db_writes_checked": 90000, "historical_reads": 1500000, "fault_points": 20000,
                  "interleaved_spans": 5000, "snapshot_writes": 3000, "batch_steps": 10000,
@@ -221,6 +221,26 @@ class Sched:
                         raise Violation("history-op-effect", "after the operation get(%s)=%s, expected %s" % (
                             hx(k), hx(got), hx(self.models[i].get(k, b""))))
                 self.remember(t.root_hash, self.models[i])
+            elif kind == "snaplive":
+                # the LIVE trie is written while an at_root snapshot of it is open: the snapshot
+                # keeps showing the old contents, the live trie keeps its write after the block
+                if i in self.open or not self.roots:
+                    continue
+                old_root, old_model = self.roots[step[2] % len(self.roots)]
+                with t.at_root(old_root) as snap:
+                    self._compare(snap, old_root, old_model, "at_root(old_root) before the live trie is written")
+                    self.models[i] = self.do_unit(i, step[3], self.models[i])
+                    self._compare(snap, old_root, old_model, "at_root(old_root) while the live trie was written")
+                    if snap.root_hash != old_root:
+                        raise Violation("history-root-contents", "the snapshot's root moved when the live trie was written")
+                k = unhx(step[3][1])
+                got = cut(t.get, k)
+                if got != self.models[i].get(k, b""):
+                    raise Violation("history-op-effect", "a write made to the live trie while a snapshot was open is gone after the block: get(%s)=%s, expected %s" % (
+                        hx(k), hx(got), hx(self.models[i].get(k, b""))))
+                self._compare(HexaryTrie(self.db, t.root_hash), t.root_hash, self.models[i], "live root after a snapshot block")
+                self.remember(t.root_hash, self.models[i])
+                self.ctx.count("live_writes_under_open_snapshot")
             elif kind == "bigbatch-marker":
                 self.ctx.count("big_batches")
             elif kind == "nested":
@@ -336,12 +356,16 @@ def gen_case(rnd, tier):
             open_spans.add(i)
         elif r < 0.22:
             steps.append(["snapw", i, rnd.randrange(1000), hh.gen_op(rnd, universe, pool, keys[i])])
-        elif r < 0.28:
+        elif r < 0.34:
+            o = hh.gen_op(rnd, universe, pool, keys[i])
+            hh._track(o, keys[i])
+            steps.append(["snaplive", i, rnd.randrange(1000), o])
+        elif r < 0.40:
             # keys[i] is not updated: the nested batch may be refused, later steps draw keys anyway
             outer = [hh.gen_op(rnd, universe, pool, keys[i]) for _ in range(rnd.randint(0, 3))]
             inner = [hh.gen_op(rnd, universe, pool, keys[i]) for _ in range(rnd.randint(0, 3))]
             steps.append(["nested", i, outer, inner])
-        elif r < 0.45:
+        elif r < 0.58:
             n = rnd.randint(0, 4)
             sub = [hh.gen_op(rnd, universe, pool, keys[i]) for _ in range(n)]
             abort = rnd.randint(0, n) if rnd.random() < 0.25 else None
